@@ -563,11 +563,29 @@ impl<'a> G<'a> {
             87..=91 => {
                 // READ into an element (one target) or into scalars (several targets)
                 if self.n_data > 0 {
-                    if self.rng.chance(2, 3) {
+                    if self.rng.chance(1, 3) {
                         if let Some(a) = self.pick_arr(Some(false)) {
                             let e = self.element(&a);
                             self.feat("read-statement:element");
                             out.push(format!("{}READ {}", ind, e));
+                        }
+                    } else if self.rng.chance(1, 2) {
+                        // several targets, elements among them: the targets are read one after the other (a later
+                        // subscript sees the value an earlier target received)
+                        if let Some(a) = self.pick_arr(Some(false)) {
+                            let e1 = self.element(&a);
+                            let e2 = self.element(&a);
+                            self.feat("read-statement:mixed-targets");
+                            let ints: Vec<Arr> = self.arrs.iter().filter(|b| b.ty == T::Int && b.dims.len() == 1).cloned().collect();
+                            match (ints.first(), self.rng.below(3)) {
+                                (Some(b), 0) => {
+                                    let (lo, _) = b.dims[0];
+                                    self.feat("read-statement:subscript-reads-earlier-target");
+                                    out.push(format!("{}READ {}({}), {}({}({}))", ind, b.name, lo, b.name, b.name, lo));
+                                }
+                                (_, 1) => out.push(format!("{}READ X%, {}, {}", ind, e1, e2)),
+                                _ => out.push(format!("{}READ {}, X%, {}", ind, e1, e2)),
+                            }
                         }
                     } else {
                         self.feat("read-statement:scalars");
@@ -831,6 +849,12 @@ fn main() {
         let okind = real.outcome.split(' ').take(2).collect::<Vec<_>>().join(" ");
         rep.case(Some(format!("{}|{}", c.feats, okind)));
         rep.bump(&format!("outcome.{}", okind));
+        if c.feats.contains("read-statement:mixed-targets") {
+            rep.bump("feature.read-several-targets-with-elements");
+        }
+        if c.feats.contains("read-statement:subscript-reads-earlier-target") {
+            rep.bump("feature.read-subscript-sees-earlier-target");
+        }
         if k < 2 || k == cases.len() - 1 {
             rep.sample(J::s(c.text.clone()));
         }
